@@ -136,6 +136,12 @@ fn decode_parts(data: &[u8], raw: bool) -> Result<DecodedParts, DataDecodingErro
     })
 }
 
+/// Positions (in the decoded output) and numbers of the ECIs read from the codewords.
+#[cfg(feature = "verif-hooks")]
+pub(crate) fn verif_eci_spans(data: &[u8]) -> Result<Vec<(usize, u32)>, DataDecodingError> {
+    decode_parts(data, true).map(|parts| parts.eci_spans)
+}
+
 /// Decode the data codewords of a Data Matrix as a string.
 ///
 /// This function has some ECI support. Be aware that
